@@ -654,6 +654,13 @@ type c20World struct {
 	lastErr  error
 	dir      string
 	now      time.Time
+	clock    time.Time // fake clock of rbac_manager.go
+	maxCache int
+	// focus: a "decouple" step drove the two cache levels of this token slot
+	// apart; the next step changes that token's membership and the keys in
+	// focusKeys are checked first
+	focus     int
+	focusKeys []c20Probe
 }
 
 type c20Probe struct {
@@ -668,8 +675,8 @@ func (p c20Probe) key() string {
 
 func c20Hash(v string) string { h := sha256.Sum256([]byte(v)); return hex.EncodeToString(h[:]) }
 
-func c20NewWorld(t *rapid.T, cluster, licensed, onDisk bool) *c20World {
-	w := &c20World{rt: t, cluster: cluster, licensed: licensed, last: map[string]bool{}, lastAt: map[string]int{}, now: time.Now()}
+func c20NewWorld(t *rapid.T, cluster, licensed, onDisk bool, maxCache int) *c20World {
+	w := &c20World{rt: t, cluster: cluster, licensed: licensed, last: map[string]bool{}, lastAt: map[string]int{}, now: time.Now(), focus: -1, maxCache: maxCache}
 	path := ":memory:"
 	if onDisk {
 		d, err := os.MkdirTemp("", "c20-")
@@ -684,7 +691,12 @@ func c20NewWorld(t *rapid.T, cluster, licensed, onDisk bool) *c20World {
 		t.Fatalf("harness: NewAuthManager: %v", err)
 	}
 	w.am, w.db = am, am.GetDB()
-	cfg := &RBACManagerConfig{DB: w.db, Logger: zerolog.Nop(), CacheTTL: time.Hour}
+	// maxCache 0 = the default 10000 entries per cache; 1-3 puts both RBAC caches
+	// under pressure with 3 tokens, so per-token data and decisions are evicted
+	// independently of each other
+	cfg := &RBACManagerConfig{DB: w.db, Logger: zerolog.Nop(), CacheTTL: time.Hour, MaxCacheSize: maxCache}
+	w.clock = w.now
+	VerifSetClock(w.clock) // rbac_manager.go reads this clock (driver clock seam); auth.go keeps the real one
 	if licensed {
 		cfg.LicenseClient = license.VerifC20Client(license.FeatureRBAC)
 	}
@@ -735,6 +747,7 @@ func (w *c20World) adopt() {
 }
 
 func (w *c20World) close() {
+	VerifSetClock(time.Time{})
 	_ = w.rm.Close()
 	_ = w.am.Close()
 	if w.dir != "" {
@@ -786,6 +799,30 @@ func (w *c20World) pick(label string, ids []int64, want bool) int {
 	return rapid.IntRange(0, len(ids)-1).Draw(w.rt, label)
 }
 
+// pickTeam draws a team slot, two times in three among the slots whose team
+// id is returned by q (teams that already carry roles / members), so that
+// grants actually reach tokens.
+func (w *c20World) pickTeam(q string) int {
+	var pref []int
+	if rows, err := w.db.Query(q); err == nil {
+		for rows.Next() {
+			var id int64
+			if rows.Scan(&id) == nil {
+				for j, t := range w.team {
+					if t == id && t != 0 {
+						pref = append(pref, j)
+					}
+				}
+			}
+		}
+		rows.Close()
+	}
+	if len(pref) > 0 && rapid.IntRange(0, 2).Draw(w.rt, "team-linked") != 0 {
+		return rapid.SampledFrom(pref).Draw(w.rt, "team")
+	}
+	return w.pick("team", w.team[:], true)
+}
+
 func (w *c20World) tokIDs() []int64 {
 	out := make([]int64, c20NTok)
 	for i := range w.tok {
@@ -825,7 +862,19 @@ var c20Actions = []string{
 	"createMP", "createMP", "deleteMP", "deleteMP",
 	"addMember", "addMember", "addMember", "removeMember", "removeMember",
 	"createToken", "createToken", "updateTokenPerms", "updateTokenPerms", "updateTokenExpiry", "revokeToken", "deleteToken", "rotateToken",
-	"seedFromLocal", "rawApply", "rawApply",
+}
+
+// actions: the base list plus the actions that only make sense in the
+// current situation (so that they do not dilute the others as no-ops).
+func (w *c20World) actions() []string {
+	out := append([]string(nil), c20Actions...)
+	if w.mixed && w.cluster {
+		out = append(out, "seedFromLocal", "rawApply", "rawApply")
+	}
+	if w.licensed {
+		out = append(out, "janitor", "decouple", "decouple")
+	}
+	return out
 }
 
 func (w *c20World) errStr(err error) string {
@@ -875,11 +924,118 @@ func (w *c20World) step(forced string) string {
 	ctx := context.Background()
 	kind := forced
 	if kind == "" {
-		kind = rapid.SampledFrom(c20Actions).Draw(t, "action")
+		kind = rapid.SampledFrom(w.actions()).Draw(t, "action")
 	}
 	switch kind {
 	case "check":
 		w.logf("check")
+		return ""
+	case "decouple":
+		// Drive the per-token RBAC data cache and the decision cache apart for
+		// one token (they lose entries independently: by eviction under size
+		// pressure, and by the janitor, which ages token data by load time but
+		// decisions by their own later expiry). The next step changes that
+		// token's membership, which must clear its decisions regardless.
+		if !w.licensed {
+			return ""
+		}
+		i := w.pick("tok", w.tokIDs(), true)
+		if w.tok[i].id == 0 {
+			return ""
+		}
+		st, err := c20Load(w.db)
+		if err != nil {
+			t.Fatalf("harness: evaluator load: %v", err)
+		}
+		var others []int
+		for j := range w.tok {
+			if j != i && w.tok[j].id != 0 {
+				others = append(others, j)
+			}
+		}
+		one := func(slot int) c20Probe {
+			return c20Probe{tok: slot, db: rapid.SampledFrom(c20DBs).Draw(t, "db"), meas: rapid.SampledFrom(c20Meas).Draw(t, "meas"),
+				perm: rapid.SampledFrom(c20Perms).Draw(t, "perm")}
+		}
+		var keys []c20Probe
+		if w.maxCache > 0 && len(others) > 0 && rapid.Bool().Draw(t, "by-pressure") {
+			// size pressure: a decision for the token, then misses for the other tokens
+			k := one(i)
+			keys = []c20Probe{k}
+			seq := []c20Probe{k}
+			for _, j := range others {
+				seq = append(seq, one(j))
+			}
+			w.checkProbes(st, seq, 0, "decouple", 1)
+			w.logf("decouple tok=%d by size pressure (max cache size %d): %d single checks", i, w.maxCache, len(seq))
+			verifkit.Class("decouple-by-pressure")
+		} else {
+			// age: token data loaded now, decisions cached 40 minutes later, the
+			// janitor runs 40 minutes after that (TTL 60)
+			w.rm.InvalidateAllCache()
+			w.checkProbes(st, []c20Probe{one(i)}, 0, "decouple", 1)
+			w.clock = w.clock.Add(40 * time.Minute)
+			VerifSetClock(w.clock)
+			w.rm.cleanupExpiredCache()
+			for _, db := range c20DBs {
+				for _, meas := range c20Meas {
+					for _, perm := range c20Perms {
+						keys = append(keys, c20Probe{tok: i, db: db, meas: meas, perm: perm})
+					}
+				}
+			}
+			w.checkProbes(st, keys, 0, "decouple", 1)
+			w.clock = w.clock.Add(40 * time.Minute)
+			VerifSetClock(w.clock)
+			w.rm.cleanupExpiredCache()
+			w.logf("decouple tok=%d by age: flush, 1 check, +40m janitor, %d checks, +40m janitor", i, len(keys))
+			verifkit.Class("decouple-by-age")
+		}
+		for _, p := range keys {
+			want, _ := w.expect(st, p)
+			w.last[p.key()] = want
+			w.lastAt[p.key()] = len(w.hist)
+		}
+		w.focus, w.focusKeys = i, keys
+		return ""
+	case "focusMembership":
+		i := w.focus
+		w.focus = -1
+		if w.tok[i].id == 0 {
+			return ""
+		}
+		var mine []int64
+		rows, err := w.db.Query(`SELECT team_id FROM rbac_token_memberships WHERE token_id = ? ORDER BY team_id`, w.tok[i].id)
+		if err == nil {
+			for rows.Next() {
+				var id int64
+				if rows.Scan(&id) == nil {
+					mine = append(mine, id)
+				}
+			}
+			rows.Close()
+		}
+		if len(mine) > 0 && rapid.IntRange(0, 3).Draw(t, "remove") != 0 {
+			team := rapid.SampledFrom(mine).Draw(t, "team")
+			err := w.rm.RemoveTokenFromTeam(ctx, w.tok[i].id, team)
+			w.logf("removeMember (after decouple) tok=%d(id %d) team id %d -> %s", i, w.tok[i].id, team, w.errStr(err))
+			kind = "removeMember"
+		} else {
+			j := w.pick("team", w.team[:], true)
+			_, err := w.rm.AddTokenToTeam(ctx, w.tok[i].id, c20IDOr(w.team[j]))
+			w.logf("addMember (after decouple) tok=%d(id %d) team=%d(id %d) -> %s", i, w.tok[i].id, j, w.team[j], w.errStr(err))
+			kind = "addMember"
+		}
+	case "janitor":
+		// time passes (cache TTL is one hour) and the minute janitor runs: it
+		// drops per-token RBAC data by load time and decisions by their own,
+		// later, expiry
+		mins := rapid.SampledFrom([]int{20, 40, 61, 90}).Draw(t, "minutes")
+		w.clock = w.clock.Add(time.Duration(mins) * time.Minute)
+		VerifSetClock(w.clock)
+		w.rm.cleanupExpiredCache()
+		w.logf("janitor after +%dm", mins)
+		verifkit.Class("janitor-run")
 		return ""
 	case "joinCluster":
 		// the node joins a cluster: the FSM starts empty, log indexes either far
@@ -1008,7 +1164,7 @@ func (w *c20World) step(forced string) string {
 			w.logf("createRole slot=%d taken; no-op", i)
 			return ""
 		}
-		j := w.pick("team", w.team[:], true)
+		j := w.pickTeam("SELECT DISTINCT team_id FROM rbac_token_memberships")
 		pat := rapid.SampledFrom(c20DBPatterns).Draw(t, "dbpat")
 		perms := c20PermSet(t, "perms", false)
 		role, err := w.rm.CreateRole(ctx, c20IDOr(w.team[j]), &CreateRoleRequest{DatabasePattern: pat, Permissions: perms})
@@ -1053,7 +1209,7 @@ func (w *c20World) step(forced string) string {
 		w.logf("deleteMP slot=%d id=%d -> %s", i, w.mp[i], w.errStr(err))
 	case "addMember":
 		i := w.pick("tok", w.tokIDs(), true)
-		j := w.pick("team", w.team[:], true)
+		j := w.pickTeam("SELECT DISTINCT team_id FROM rbac_roles")
 		_, err := w.rm.AddTokenToTeam(ctx, c20IDOr(w.tok[i].id), c20IDOr(w.team[j]))
 		w.logf("addMember tok=%d(id %d) team=%d(id %d) -> %s", i, w.tok[i].id, j, w.team[j], w.errStr(err))
 	case "removeMember":
@@ -1272,8 +1428,12 @@ func c20RunHistory(t *rapid.T) {
 	cluster := mode == "cluster-apply"
 	licensed := rapid.IntRange(0, 9).Draw(t, "licensed") != 0
 	onDisk := rapid.IntRange(0, 7).Draw(t, "on-disk") == 0
-	w := c20NewWorld(t, cluster, licensed, onDisk)
+	maxCache := rapid.SampledFrom([]int{0, 0, 0, 0, 0, 1, 2, 2}).Draw(t, "rbac-max-cache-size")
+	w := c20NewWorld(t, cluster, licensed, onDisk, maxCache)
 	defer w.close()
+	if maxCache > 0 {
+		verifkit.Class("cache-pressure(max-cache-size<=3)")
+	}
 	w.mixed = mode == "mixed"
 	verifkit.Class("mode-" + mode)
 	verifkit.Class(map[bool]string{true: "rbac-licensed", false: "rbac-unlicensed"}[licensed])
@@ -1314,6 +1474,12 @@ func c20RunHistory(t *rapid.T) {
 		if s == joinAt {
 			forced = "joinCluster"
 		}
+		var first []c20Probe
+		if forced == "" && w.focus >= 0 {
+			forced, first = "focusMembership", w.focusKeys
+		} else if forced != "" {
+			w.focus = -1
+		}
 		w.lastErr = nil
 		mut := w.step(forced)
 		w.sync()
@@ -1330,7 +1496,7 @@ func c20RunHistory(t *rapid.T) {
 		if err != nil {
 			t.Fatalf("harness: evaluator load: %v", err)
 		}
-		probes := w.drawProbes()
+		probes := append(append([]c20Probe(nil), first...), w.drawProbes()...)
 		api := rapid.IntRange(0, 2).Draw(t, "api")
 		chunk := rapid.IntRange(1, 12).Draw(t, "batch-k")
 
